@@ -239,3 +239,29 @@ Proof. intros Hn a c d Ht Hdet. unfold b_star. fold a c d. rewrite Ht. intros j 
   assert (Hc : Cn n (X 1%nat) (X 0%nat) == c) by apply (Cn_sym n Hn).
   destruct j as [|[|j]]; [| |lia]; simpl; fold a c d; rewrite ?Hc; field; exact Hdet. Qed.
 
+
+(* ------------------------------------------------------------------ statements as used by Properties/C07.v *)
+Theorem price_is_df_mean_full (payoff : Q -> list Q) (path : nat -> Q) df notional n init d j :
+  length init = n -> (forall i, length (payoff (path i)) = d) -> (j < d)%nat ->
+  std_engine payoff path df notional n init = map (std_row payoff path df notional) (seq 0 n)
+  /\ nth j (std_price d (std_engine payoff path df notional n init)) 0
+     == df * notional * mean (map (fun i => nth j (payoff (path i)) 0) (seq 0 n)).
+Proof. intros. split; [now apply engine_rows|now apply price_is_df_mean]. Qed.
+
+Theorem error_per_component_full d rows j : (j < d)%nat -> (2 <= length rows)%nat ->
+  length (mc_var_repaired d rows) = d /\
+  nth j (mc_var_repaired d rows) 0
+  == (Qsum (map sq (column j rows)) - qlen rows * sq (mean (column j rows))) / (qlen rows - 1) / qlen rows.
+Proof. intros. split; [apply mc_var_length|now apply error_per_component]. Qed.
+
+Theorem cv_mean_full n : (0 < n)%nat -> forall b p X Y,
+  En n (cv_adj b p X Y) == En n Y - dotf b (fun k => En n (X k) - p k) 0
+  /\ ((forall k, En n (X k) == p k) -> En n (cv_adj b p X Y) == En n Y).
+Proof. intros Hn b p X Y. split; [now apply cv_mean|now apply cv_mean_unbiased]. Qed.
+
+Theorem b_star_normal n X Y : (0 < n)%nat ->
+  (Qltb (Qabs (Cn n (X 0%nat) (X 0%nat))) cv_eps = false -> normal_eq n (b_star n 1 X Y) X Y)
+  /\ (let a := Cn n (X 0%nat) (X 0%nat) in let c := Cn n (X 0%nat) (X 1%nat) in let d := Cn n (X 1%nat) (X 1%nat) in
+      Qltb (Qminb (Qabs a) (Qminb (Qabs c) (Qabs d))) cv_eps = false -> ~ a * d - c * c == 0 ->
+      normal_eq n (b_star n 2 X Y) X Y).
+Proof. intros Hn. split; [now apply b_star_1_normal|now apply b_star_2_normal]. Qed.
